@@ -18,6 +18,8 @@ fn cfg(d: &mut Dna, explicit_bounds: bool) -> GenCfg {
         c.attr_pct = 70;
     }
     c.type_expr = false;
+    // `P: Into<Option<P>>` holds for every P through std's blanket impl, which the marker-type model does not describe
+    c.generic_into = false;
     c.reprs = false;
     c.discriminants = false;
     c.raw_idents = false;
@@ -43,11 +45,12 @@ enum Ctor {
     Ref,
     Phantom,
     Wrapper,
+    Ptr,
 }
 
-fn ctor_of(f: &FTy, params: &[String]) -> (Ctor, Option<String>) {
-    let p = f.params.iter().find(|p| params.contains(p)).cloned();
-    let Some(p) = p else { return (Ctor::Concrete, None) };
+fn ctor_of(f: &FTy, params: &[String]) -> (Ctor, Vec<String>) {
+    let ps: Vec<String> = f.params.iter().filter(|p| params.contains(p)).cloned().collect();
+    let Some(p) = ps.first().cloned() else { return (Ctor::Concrete, vec![]) };
     let s = f.src.as_str();
     let c = if s == p {
         Ctor::Param
@@ -63,6 +66,8 @@ fn ctor_of(f: &FTy, params: &[String]) -> (Ctor, Option<String>) {
         Ctor::Tup
     } else if s.starts_with('&') {
         Ctor::Ref
+    } else if s.starts_with("*const") {
+        Ctor::Ptr
     } else if s.starts_with("PhantomData<") {
         Ctor::Phantom
     } else if s.starts_with("Wrapper<") {
@@ -70,7 +75,7 @@ fn ctor_of(f: &FTy, params: &[String]) -> (Ctor, Option<String>) {
     } else {
         Ctor::Concrete
     };
-    (c, Some(p))
+    (c, ps)
 }
 
 /// does the marker type implement std trait `t`? (read off the derives in the prelude)
@@ -108,9 +113,9 @@ fn marker_for(req: Tr) -> &'static str {
 
 /// std's documented impls for the constructors (Appendix C of DESIGN.md)
 fn implements(req: Tr, f: &FTy, params: &[String], sigma: &[(String, &'static str)]) -> bool {
-    let (c, p) = ctor_of(f, params);
-    let arg = p.and_then(|p| sigma.iter().find(|(n, _)| *n == p).map(|(_, m)| *m)).unwrap_or("Yes");
-    let inner = marker_has(arg, req);
+    let (c, ps) = ctor_of(f, params);
+    // every parameter the type mentions must implement the trait (only tuples mention more than one)
+    let inner = ps.iter().all(|p| marker_has(sigma.iter().find(|(n, _)| n == p).map(|(_, m)| *m).unwrap_or("Yes"), req));
     use Tr::*;
     match c {
         Ctor::Concrete => true,
@@ -134,6 +139,7 @@ fn implements(req: Tr, f: &FTy, params: &[String], sigma: &[(String, &'static st
             _ => inner,
         },
         Ctor::Phantom => true,
+        Ctor::Ptr => req != Default,
     }
 }
 
@@ -317,15 +323,18 @@ pub fn prepare_with(dna: &[u16], explicit_bounds: bool) -> Option<Case> {
             }
             // self-validation of the std-impl table for every delegated field type under this instantiation
             for f in delegated(&s, *x, target.as_deref()) {
-                let (c, p) = ctor_of(&f.ty, &params);
+                let (c, ps) = ctor_of(&f.ty, &params);
                 if c == Ctor::Concrete {
                     continue;
                 }
-                let p = p.unwrap();
-                let m = sigma.iter().find(|(n, _)| *n == p).map(|(_, m)| *m).unwrap_or("Yes");
-                let fty = f.ty.src.replace(&format!("'{}", s.gens.lifetimes.first().map(|l| l.0.as_str()).unwrap_or("a")), "'static");
-                let fty = subst_param(&fty, &p, m);
-                let fty = s.gens.lifetimes.iter().fold(fty, |acc, l| acc.replace(&format!("'{}", l.0), "'static"));
+                let mut fty = f.ty.src.clone();
+                for l in &s.gens.lifetimes {
+                    fty = fty.replace(&format!("'{}", l.0), "'static");
+                }
+                for p in &ps {
+                    let m = sigma.iter().find(|(n, _)| n == p).map(|(_, m)| *m).unwrap_or("Yes");
+                    fty = subst_param(&fty, p, m);
+                }
                 let reqp = match req {
                     Tr::Into => format!("::core::convert::Into<{}>", target.clone().unwrap_or_default()),
                     t => t.std_path().to_string(),
